@@ -350,6 +350,19 @@ func (k *kirkRig) try(c *Ctx, delta float64, valid bool, v int64, tag string) {
 			c.Fail("prob-range", "kirk:probability-range", ctx, ops)
 		}
 	}
+	// observation, not a clause of the property (which quantifies over positive temperatures): T = 0 is the DEFAULT
+	// StartingTemperature; there exp(-|d|/0) is 0 for d != 0 and NaN for d = 0 (reported as it is), and nothing
+	// that is not an improvement is ever accepted
+	if valid && k.dir != "unset" && finite && T == 0 && (kind == "uacc" || kind == "urev") && hasP {
+		switch {
+		case delta == 0 && math.IsNaN(pEv) && !accepted:
+			c.Stat("observation T=0 (default StartingTemperature): zero change -> probability reported as NaN, reverted")
+		case delta != 0 && pEv == 0 && !accepted:
+			c.Stat("observation T=0 (default StartingTemperature): worsening change -> probability 0, reverted")
+		default:
+			c.Stat("observation T=0 (default StartingTemperature): other behaviour")
+		}
+	}
 	if k.dir != "unset" && finite && !math.IsNaN(before) && !math.IsInf(before, 0) {
 		want := before
 		if accepted {
